@@ -6,7 +6,7 @@ From Coq Require Import Lia ZArith.
 Local Open Scope nat_scope.
 
 Lemma clamp_same k : clamp k (Z.of_nat k) = k.
-Proof. unfold clamp. rewrite Z.gtb_ltb, Z.ltb_irrefl. reflexivity. Qed.
+Proof. rewrite clamp_min, Nat2Z.id. lia. Qed.
 
 Section Complete.
   Variable H : str -> str -> str.
@@ -14,12 +14,12 @@ Section Complete.
 
   (* the io.ReadFull loop of ReadAll on a reader that holds exactly the missing bytes *)
   Lemma read_full_exact : forall evs fuel acc N want,
-    nfail evs = 0 -> length evs < fuel ->
+    nfail evs + neof evs = 0 -> length evs < fuel ->
     N = Z.of_nat (length (stream evs)) -> want = length acc + length (stream evs) ->
     exists evs' err',
       read_full (vr_read comb) fuel (mkVr (mkBase evs None) N acc None false) want acc
       = ((acc ++ stream evs, None), mkVr (mkBase evs' None) 0 (acc ++ stream evs) err' false) /\
-      stream evs' = [] /\ nfail evs' = 0 /\ length evs' <= length evs /\
+      stream evs' = [] /\ nfail evs' + neof evs' = 0 /\ length evs' <= length evs /\
       (err' = None \/ err' = Some EEof).
   Proof.
     induction evs as [|e r IH]; intros fuel acc N want NF Fu EN EW.
@@ -39,7 +39,7 @@ Section Complete.
         unfold vr_read at 1. cbn [v_err v_N v_base v_hashed v_verified]. rewrite Npos.
         rewrite K. subst N. rewrite clamp_same.
         unfold base_read. cbn [b_lim b_evs].
-        destruct e as [d| |].
+        destruct e as [d| | |]; [| |exfalso; simpl in NF; lia|exfalso; simpl in NF; lia].
         * (* Data d *)
           simpl in ES. simpl in NF.
           assert (Ld : (length d <=? length (c0 :: s0)) = true).
@@ -51,13 +51,13 @@ Section Complete.
                      read_full (vr_read comb) fuel'
                        (mkVr (mkBase r None) (Z.of_nat (length (stream r))) (acc ++ d) None false) want (acc ++ d)
                      = ((acc ++ c0 :: s0, None), mkVr (mkBase evs' None) 0 (acc ++ c0 :: s0) err' false) /\
-                     stream evs' = [] /\ nfail evs' = 0 /\ length evs' <= length r /\
+                     stream evs' = [] /\ nfail evs' + neof evs' = 0 /\ length evs' <= length r /\
                      (err' = None \/ err' = Some EEof)).
           { intros fuel' Fu'. destruct (IH fuel' (acc ++ d) (Z.of_nat (length (stream r))) want NF Fu' eq_refl) as (evs' & err' & E1 & E2).
             - subst want. rewrite app_length, <- ES, app_length. lia.
             - exists evs', err'. rewrite <- ES, app_assoc. split; [exact E1|exact E2]. }
           destruct comb eqn:Cb.
-          -- destruct r as [|[d'| |] r'].
+          -- destruct r as [|[d'| | |] r']; [| | |exfalso; simpl in NF; lia|exfalso; simpl in NF; lia].
              ++ (* data together with EOF *)
                 simpl in ES. rewrite app_nil_r in ES. subst d.
                 cbn [length app]. rewrite Z.sub_diag. cbn [is_eof andb Z.gtb Z.compare set_err v_base v_N v_hashed v_verified].
@@ -68,7 +68,6 @@ Section Complete.
                 exists evs', err'. split; [exact E1|]. repeat split; auto; try (simpl in *; lia).
              ++ rewrite Rest. destruct (Go f) as (evs' & err' & E1 & E2 & E3 & E4 & E5); [simpl in *; lia|].
                 exists evs', err'. split; [exact E1|]. repeat split; auto; try (simpl in *; lia).
-             ++ simpl in NF. discriminate.
           -- rewrite Rest. destruct (Go f) as (evs' & err' & E1 & E2 & E3 & E4 & E5); [simpl in *; lia|].
              exists evs', err'. split; [exact E1|]. repeat split; auto; try (simpl in *; lia).
         * (* Zero *)
@@ -78,17 +77,16 @@ Section Complete.
           -- reflexivity.
           -- subst want. rewrite ES. reflexivity.
           -- rewrite ES in *. exists evs', err'. split; [exact E1|]. repeat split; auto; try (simpl; lia).
-        * simpl in NF. discriminate.
   Qed.
 
   (* the same behind an io.LimitReader whose bound is exactly the missing bytes (LimitedStorage) *)
   Lemma read_full_exact_lim : forall evs fuel acc N want,
-    nfail evs = 0 -> length evs < fuel ->
+    nfail evs + neof evs = 0 -> length evs < fuel ->
     N = Z.of_nat (length (stream evs)) -> want = length acc + length (stream evs) ->
     exists evs' err',
       read_full (vr_read comb) fuel (mkVr (mkBase evs (Some N)) N acc None false) want acc
       = ((acc ++ stream evs, None), mkVr (mkBase evs' (Some 0%Z)) 0 (acc ++ stream evs) err' false) /\
-      stream evs' = [] /\ nfail evs' = 0 /\ length evs' <= length evs /\
+      stream evs' = [] /\ nfail evs' + neof evs' = 0 /\ length evs' <= length evs /\
       (err' = None \/ err' = Some EEof).
   Proof.
     induction evs as [|e r IH]; intros fuel acc N want NF Fu EN EW.
@@ -108,7 +106,7 @@ Section Complete.
         unfold vr_read at 1. cbn [v_err v_N v_base v_hashed v_verified]. rewrite Npos.
         rewrite K. subst N. rewrite clamp_same.
         unfold base_read. cbn [b_lim b_evs]. rewrite Npos, clamp_same.
-        destruct e as [d| |].
+        destruct e as [d| | |]; [| |exfalso; simpl in NF; lia|exfalso; simpl in NF; lia].
         * (* Data d *)
           simpl in ES. simpl in NF.
           assert (Ld : (length d <=? length (c0 :: s0)) = true).
@@ -120,13 +118,13 @@ Section Complete.
                      read_full (vr_read comb) fuel'
                        (mkVr (mkBase r (Some (Z.of_nat (length (stream r))))) (Z.of_nat (length (stream r))) (acc ++ d) None false) want (acc ++ d)
                      = ((acc ++ c0 :: s0, None), mkVr (mkBase evs' (Some 0%Z)) 0 (acc ++ c0 :: s0) err' false) /\
-                     stream evs' = [] /\ nfail evs' = 0 /\ length evs' <= length r /\
+                     stream evs' = [] /\ nfail evs' + neof evs' = 0 /\ length evs' <= length r /\
                      (err' = None \/ err' = Some EEof)).
           { intros fuel' Fu'. destruct (IH fuel' (acc ++ d) (Z.of_nat (length (stream r))) want NF Fu' eq_refl) as (evs' & err' & E1 & E2).
             - subst want. rewrite app_length, <- ES, app_length. lia.
             - exists evs', err'. rewrite <- ES, app_assoc. split; [exact E1|exact E2]. }
           destruct comb eqn:Cb.
-          -- destruct r as [|[d'| |] r'].
+          -- destruct r as [|[d'| | |] r']; [| | |exfalso; simpl in NF; lia|exfalso; simpl in NF; lia].
              ++ (* data together with EOF *)
                 simpl in ES. rewrite app_nil_r in ES. subst d.
                 cbn [length app]. rewrite Z.sub_diag. cbn [is_eof andb Z.gtb Z.compare set_err v_base v_N v_hashed v_verified].
@@ -137,7 +135,6 @@ Section Complete.
                 exists evs', err'. split; [exact E1|]. repeat split; auto; try (simpl in *; lia).
              ++ rewrite Rest. destruct (Go f) as (evs' & err' & E1 & E2 & E3 & E4 & E5); [simpl in *; lia|].
                 exists evs', err'. split; [exact E1|]. repeat split; auto; try (simpl in *; lia).
-             ++ simpl in NF. discriminate.
           -- rewrite Rest. destruct (Go f) as (evs' & err' & E1 & E2 & E3 & E4 & E5); [simpl in *; lia|].
              exists evs', err'. split; [exact E1|]. repeat split; auto; try (simpl in *; lia).
         * (* Zero *)
@@ -147,39 +144,36 @@ Section Complete.
           -- reflexivity.
           -- subst want. rewrite ES. reflexivity.
           -- rewrite ES in *. exists evs', err'. split; [exact E1|]. repeat split; auto; try (simpl; lia).
-        * simpl in NF. discriminate.
   Qed.
 
   (* ensureEOF on what is left of such a reader (only 0-byte reads) *)
   Lemma ensure_eof_exhausted : forall evs fuel h,
-    stream evs = [] -> nfail evs = 0 -> length evs < fuel ->
+    stream evs = [] -> nfail evs + neof evs = 0 -> length evs < fuel ->
     exists b', read_full (tee_read comb) fuel (mkBase evs None, h) 1 [] = (([], Some EEof), (b', h)).
   Proof.
     induction evs as [|e r IH]; intros fuel h ES NF Fu; (destruct fuel as [|f]; [simpl in Fu; lia|]).
     - exists (mkBase [] None). cbn. rewrite app_nil_r. reflexivity.
     - cbn [read_full length Nat.leb]. unfold tee_read at 1. cbn [fst snd Nat.sub].
       unfold base_read. cbn [b_lim b_evs]. simpl in Fu.
-      destruct e as [d| |].
+      destruct e as [d| | |]; [| |exfalso; simpl in NF; lia|exfalso; simpl in NF; lia].
       + simpl in ES. apply app_eq_nil in ES as [-> ES]. simpl in NF.
         cbn [script_read length Nat.leb].
         destruct comb.
-        * destruct r as [|[d'| |] r'].
+        * destruct r as [|[d'| | |] r']; [| | |exfalso; simpl in NF; lia|exfalso; simpl in NF; lia].
           -- exists (mkBase [] None). cbn. rewrite app_nil_r. reflexivity.
           -- cbn [app]. rewrite app_nil_r. apply IH; auto. lia.
           -- cbn [app]. rewrite app_nil_r. apply IH; auto. lia.
-          -- simpl in NF. discriminate.
         * cbn [app]. rewrite app_nil_r. apply IH; auto. lia.
       + simpl in ES, NF. cbn [script_read app]. rewrite app_nil_r. apply IH; auto. lia.
-      + simpl in NF. discriminate.
   Qed.
 
   Lemma length_le_weight evs : length evs <= ev_weight evs.
-  Proof. induction evs as [|[d| |] r IH]; simpl; lia. Qed.
+  Proof. induction evs as [|[d| | |] r IH]; simpl; lia. Qed.
 
   (* content.ReadAll accepts every well-behaved reader of exactly the right bytes:
      any chunking, any number of 0-byte reads, EOF with or after the last chunk *)
   Theorem read_all_complete fixed fuel evs dg :
-    nfail evs = 0 -> valid_digest dg = true -> dg = digest_of H (alg_of dg) (stream evs) ->
+    nfail evs + neof evs = 0 -> valid_digest dg = true -> dg = digest_of H (alg_of dg) (stream evs) ->
     ev_weight evs < fuel ->
     fst (read_all H comb fixed fuel (mkBase evs None) dg (Z.of_nat (length (stream evs))))
     = (None, stream evs).
@@ -200,7 +194,7 @@ Section Complete.
   Qed.
 
   Theorem mem_push_complete fixed fuel m d evs :
-    mem_get m d = None -> nfail evs = 0 -> valid_digest (d_dg d) = true ->
+    mem_get m d = None -> nfail evs + neof evs = 0 -> valid_digest (d_dg d) = true ->
     d_dg d = digest_of H (alg_of (d_dg d)) (stream evs) -> d_sz d = Z.of_nat (length (stream evs)) ->
     ev_weight evs < fuel ->
     mem_push H comb fixed fuel m d (mkBase evs None) = (None, (d, stream evs) :: m).
@@ -213,14 +207,14 @@ Section Complete.
 
   (* ---------------------------------------------------------------- CopyBuffer, any buffer size *)
   Lemma clamp_pos k n : 1 <= k -> (0 < n)%Z -> 1 <= clamp k n.
-  Proof. unfold clamp. intros. destruct (Z.of_nat k >? n)%Z; lia. Qed.
+  Proof. rewrite clamp_min. lia. Qed.
 
   Lemma copy_loop_exact bufsz : 1 <= bufsz -> forall fuel evs out N,
-    nfail evs = 0 -> ev_weight evs < fuel -> N = Z.of_nat (length (stream evs)) ->
+    nfail evs + neof evs = 0 -> ev_weight evs < fuel -> N = Z.of_nat (length (stream evs)) ->
     exists evs',
       copy_loop comb fuel (mkVr (mkBase evs None) N out None false) bufsz out
       = ((None, out ++ stream evs), mkVr (mkBase evs' None) 0 (out ++ stream evs) (Some EEof) false) /\
-      stream evs' = [] /\ nfail evs' = 0 /\ length evs' <= length evs.
+      stream evs' = [] /\ nfail evs' + neof evs' = 0 /\ length evs' <= length evs.
   Proof.
     intro B1. induction fuel as [|f IH]; intros evs out N NF Fu EN; [lia|].
     cbn [copy_loop]. unfold vr_read at 1. cbn [v_err v_N v_base v_hashed v_verified].
@@ -233,7 +227,7 @@ Section Complete.
       pose proof (clamp_pos bufsz N B1 N0) as K1. pose proof (clamp_le bufsz N N0) as [_ K2].
       remember (clamp bufsz N) as k eqn:Ek. clear Ek.
       unfold base_read. cbn [b_lim b_evs].
-      destruct evs as [|[d| |] r].
+      destruct evs as [|[d| | |] r]; [| | |exfalso; simpl in NF; lia|exfalso; simpl in NF; lia].
       + simpl in EN. lia.
       + simpl in NF, Fu, EN. cbn [script_read].
         destruct (length d <=? k) eqn:Ld.
@@ -243,16 +237,15 @@ Section Complete.
           assert (Go : exists evs',
                      copy_loop comb f (mkVr (mkBase r None) (Z.of_nat (length (stream r))) (out ++ d) None false) bufsz (out ++ d)
                      = ((None, out ++ stream (Data d :: r)), mkVr (mkBase evs' None) 0 (out ++ stream (Data d :: r)) (Some EEof) false) /\
-                     stream evs' = [] /\ nfail evs' = 0 /\ length evs' <= length (Data d :: r)).
+                     stream evs' = [] /\ nfail evs' + neof evs' = 0 /\ length evs' <= length (Data d :: r)).
           { destruct (IH r (out ++ d) (Z.of_nat (length (stream r))) NF) as (evs' & E1 & E2 & E3 & E4); [lia|reflexivity|].
             exists evs'. simpl stream. rewrite app_assoc. split; [exact E1|]. repeat split; auto. simpl; lia. }
           destruct comb eqn:Cb.
-          -- destruct r as [|[d'| |] r'].
+          -- destruct r as [|[d'| | |] r']; [| | |exfalso; simpl in NF; lia|exfalso; simpl in NF; lia].
              ++ simpl in Rest. rewrite Rest. cbn [is_eof andb Z.gtb Z.compare set_err v_base v_N v_hashed v_verified].
                 exists []. simpl stream. rewrite app_nil_r. repeat split; auto; simpl; lia.
              ++ rewrite Rest. exact Go.
              ++ rewrite Rest. exact Go.
-             ++ simpl in NF. discriminate.
           -- rewrite Rest. exact Go.
         * apply Nat.leb_gt in Ld.
           assert (Lf : length (firstn k d) = k) by (apply firstn_length_le; lia).
@@ -267,11 +260,10 @@ Section Complete.
       + simpl in NF, Fu, EN. cbn [script_read length app]. rewrite Z.sub_0_r, app_nil_r.
         destruct (IH r out N NF) as (evs' & E1 & E2 & E3 & E4); [lia|exact EN|].
         exists evs'. simpl stream. split; [exact E1|]. repeat split; auto; try (simpl; lia).
-      + simpl in NF. discriminate.
   Qed.
 
   Theorem copy_buffer_complete fuel evs bufsz dg :
-    1 <= bufsz -> nfail evs = 0 -> valid_digest dg = true -> dg = digest_of H (alg_of dg) (stream evs) ->
+    1 <= bufsz -> nfail evs + neof evs = 0 -> valid_digest dg = true -> dg = digest_of H (alg_of dg) (stream evs) ->
     ev_weight evs < fuel ->
     fst (copy_buffer H comb true fuel (mkBase evs None) bufsz dg (Z.of_nat (length (stream evs))))
     = (None, stream evs).
@@ -294,7 +286,7 @@ Section Complete.
   Proof. apply Nat.leb_le. vm_compute. reflexivity. Qed.
 
   Theorem oci_push_complete fuel s d evs :
-    oci_get s (d_dg d) = None -> nfail evs = 0 -> valid_digest (d_dg d) = true ->
+    oci_get s (d_dg d) = None -> nfail evs + neof evs = 0 -> valid_digest (d_dg d) = true ->
     d_dg d = digest_of H (alg_of (d_dg d)) (stream evs) -> d_sz d = Z.of_nat (length (stream evs)) ->
     ev_weight evs < fuel ->
     oci_push H comb true fuel s d (mkBase evs None) = (None, (d_dg d, stream evs) :: s).
@@ -311,7 +303,7 @@ Section Complete.
   (* file.Store, named push: a fresh name and a well-behaved reader of the right bytes *)
   Theorem file_push_complete fuel s name path d evs :
     name <> [] -> name_in name (f_names s) = false ->
-    nfail evs = 0 -> valid_digest (d_dg d) = true ->
+    nfail evs + neof evs = 0 -> valid_digest (d_dg d) = true ->
     d_dg d = digest_of H (alg_of (d_dg d)) (stream evs) -> d_sz d = Z.of_nat (length (stream evs)) ->
     ev_weight evs < fuel ->
     file_push H comb true fuel s name path d evs
@@ -332,7 +324,7 @@ Section Complete.
   Proof. destruct fuel; [lia|]. intros _. cbn. rewrite app_nil_r. reflexivity. Qed.
 
   Theorem read_all_complete_lim fixed fuel evs dg :
-    nfail evs = 0 -> valid_digest dg = true -> dg = digest_of H (alg_of dg) (stream evs) ->
+    nfail evs + neof evs = 0 -> valid_digest dg = true -> dg = digest_of H (alg_of dg) (stream evs) ->
     ev_weight evs < fuel ->
     fst (read_all H comb fixed fuel (mkBase evs (Some (Z.of_nat (length (stream evs))))) dg
                   (Z.of_nat (length (stream evs))))
@@ -354,7 +346,7 @@ Section Complete.
 
   (* LimitedStorage over cas.Memory (= the file store's fallback for unnamed content) *)
   Theorem limited_mem_push_complete fixed fuel limit m d evs :
-    (d_sz d <= limit)%Z -> mem_get m d = None -> nfail evs = 0 -> valid_digest (d_dg d) = true ->
+    (d_sz d <= limit)%Z -> mem_get m d = None -> nfail evs + neof evs = 0 -> valid_digest (d_dg d) = true ->
     d_dg d = digest_of H (alg_of (d_dg d)) (stream evs) -> d_sz d = Z.of_nat (length (stream evs)) ->
     ev_weight evs < fuel ->
     limited_push (mem_push H comb fixed fuel) limit m d evs = (None, (d, stream evs) :: m).
@@ -370,7 +362,7 @@ Section Complete.
 
   Theorem file_push_fallback_complete fuel s path d evs :
     (d_sz d <= defaultFallbackPushSizeLimit)%Z -> mem_get (f_fb s) d = None ->
-    nfail evs = 0 -> valid_digest (d_dg d) = true ->
+    nfail evs + neof evs = 0 -> valid_digest (d_dg d) = true ->
     d_dg d = digest_of H (alg_of (d_dg d)) (stream evs) -> d_sz d = Z.of_nat (length (stream evs)) ->
     ev_weight evs < fuel ->
     file_push H comb true fuel s [] path d evs
@@ -380,3 +372,58 @@ Section Complete.
     rewrite (limited_mem_push_complete true fuel _ _ _ _ Lm G NF V D Sz Fu). reflexivity.
   Qed.
 End Complete.
+
+(* ------------------------------------------------------------------ the two verification paths agree *)
+(* content.ReadAll (memory store, FetchAll) and ioutil.CopyBuffer (OCI layout, file store)
+   accept exactly the same (reader, descriptor) pairs and hand on the same bytes. *)
+Section PathsAgree.
+  Variable H : str -> str -> str.
+  Variable comb : bool.
+  Local Open Scope nat_scope.
+
+  Lemma accepted_facts evs dg sz buf :
+    matches_desc H dg sz buf -> stream evs = buf ->
+    sz = Z.of_nat (length (stream evs)) /\ valid_digest dg = true /\ dg = digest_of H (alg_of dg) (stream evs).
+  Proof. intros (A1 & A2 & A3) S. subst buf. repeat split; auto; lia. Qed.
+
+  Theorem paths_agree fuel evs bufsz dg sz buf :
+    1 <= bufsz -> ev_weight evs < fuel -> neof evs = 0 ->
+    (fst (read_all H comb true fuel (mkBase evs None) dg sz) = (None, buf) <->
+     fst (copy_buffer H comb true fuel (mkBase evs None) bufsz dg sz) = (None, buf)).
+  Proof.
+    intros B1 Fu Ne. split; intro E.
+    - destruct (read_all H comb true fuel (mkBase evs None) dg sz) as [[e b0] v] eqn:Er.
+      simpl in E. inversion E; subst.
+      pose proof (read_all_failing H comb true fuel evs dg sz buf v Ne Er) as NF.
+      apply read_all_sound in Er as (A & _ & C). specialize (C eq_refl Ne). simpl in C.
+      destruct (accepted_facts evs dg sz buf A C) as (-> & V & D). rewrite <- C.
+      apply copy_buffer_complete; auto; lia.
+    - destruct (copy_buffer H comb true fuel (mkBase evs None) bufsz dg sz) as [[e b0] v] eqn:Ec.
+      simpl in E. inversion E; subst.
+      pose proof (copy_buffer_failing H comb fuel evs bufsz dg sz buf v Ne Ec) as NF.
+      apply copy_buffer_sound in Ec as (A & _ & C). specialize (C eq_refl Ne). simpl in C.
+      destruct (accepted_facts evs dg sz buf A C) as (-> & V & D). rewrite <- C.
+      apply read_all_complete; auto; lia.
+  Qed.
+
+  (* hence a memory store and an OCI layout that do not hold the descriptor yet accept the
+     same pushes, and store the same bytes *)
+  Theorem stores_agree fuel m s d evs buf :
+    ev_weight evs < fuel -> neof evs = 0 -> mem_get m d = None -> oci_get s (d_dg d) = None ->
+    (mem_push H comb true fuel m d (mkBase evs None) = (None, (d, buf) :: m) <->
+     oci_push H comb true fuel s d (mkBase evs None) = (None, (d_dg d, buf) :: s)).
+  Proof.
+    intros Fu Ne Gm Go.
+    pose proof (paths_agree fuel evs oci_bufsz (d_dg d) (d_sz d) buf oci_bufsz_pos Fu Ne) as P.
+    unfold mem_push, oci_push. rewrite Gm, Go.
+    destruct (read_all H comb true fuel (mkBase evs None) (d_dg d) (d_sz d)) as [[e1 b1] v1] eqn:Er.
+    destruct (copy_buffer H comb true fuel (mkBase evs None) oci_bufsz (d_dg d) (d_sz d)) as [[e2 b2] v2] eqn:Ec.
+    simpl in P. split; intro E.
+    - destruct e1 as [e1|]; [discriminate|]. inversion E; subst b1.
+      assert (X : (e2, b2) = (None, buf)) by (apply P; reflexivity). inversion X; subst.
+      apply copy_buffer_sound in Ec as ((_ & _ & V) & _). rewrite V. reflexivity.
+    - destruct (negb (valid_digest (d_dg d))); [discriminate|].
+      destruct e2 as [e2|]; [discriminate|]. inversion E; subst b2.
+      assert (X : (e1, b1) = (None, buf)) by (apply P; reflexivity). inversion X; subst. reflexivity.
+  Qed.
+End PathsAgree.
